@@ -24,17 +24,22 @@ def run(cmd, cwd, env=None, timeout=7200):
 
 def targets(meta, patch):
     tg = []
-    for line in meta.get("tests_run", []):
+    # the agent's FIRST listed run is its focused selection; the broad directory runs it also did are
+    # recorded in its own meta (tests_run) and are not repeated here for time
+    for line in meta.get("tests_run", [])[:1]:
         for m in re.findall(r"(test/[\w/\.]+)", str(line)):
             m = m.rstrip(".")
             if m not in tg and "::" not in m:
                 tg.append(m)
+    broad = {"test/orm", "test/sql", "test/dialect", "test/engine", "test/ext", "test/base"}
+    if tg and all(t in broad for t in tg) and len(tg) > 2:
+        tg = tg[:2]
     if not tg:
         for f in re.findall(r"^\+\+\+ b/lib/sqlalchemy/(\w+)/", patch, re.M):
             for t in DEFAULT_BY_DIR.get(f, ["test/base"]):
                 if t not in tg:
                     tg.append(t)
-    return tg[:12]
+    return tg[:8]
 
 
 def confirm(name):
